@@ -44,8 +44,12 @@ def cases(draw, tier):
     return {"state": sc, "rows": rows, "perm": list(perm), "split": draw(st.integers(0, N))}
 
 
-def born_rows(case):
+MIN_ROW_PROB = 1e-9     # d(-log p) is ill-conditioned at p ~ 0 (u within 1e-9 of 1 can select such an outcome): excluded and counted
+
+
+def born_rows(case, with_probs=False):
     """Resolve outcomes (inverse CDF of the reference Born distribution in each row's basis)."""
+    probs = []
     sc = case["state"]
     n = sc["n"]
     am, ph = gen.ref_nets(sc)
@@ -66,6 +70,9 @@ def born_rows(case):
             cdf = torch.cumsum(p / p.sum(), 0)
             k = int(torch.searchsorted(cdf, torch.tensor(r["u"], dtype=R.F64), right=True).clamp(max=2 ** n - 1))  # first outcome with cdf > u: never a zero-probability one
             out.append((r["basis"], k))
+            probs.append(float(p[k] / p.sum()))
+    if with_probs:
+        return out, probs
     return out
 
 
@@ -144,7 +151,9 @@ def check(case):
     sc = case["state"]
     n, t = sc["n"], sc["type"]
     state = gen.build_state(sc)
-    rows = born_rows(case)
+    rows, probs = born_rows(case, with_probs=True)
+    if min(probs) < MIN_ROW_PROB:
+        return {"nontrivial": False, "excluded": 1, "labels": ["excluded:row-probability<1e-9"]}
     N = len(rows)
     samples = R.rows_from_indices([k for _, k in rows], n)
     bases = np.array([list(b) for b, _ in rows]).reshape(N, n)
